@@ -1,1 +1,1304 @@
-//! (stub)
+//! Semantic dump (DESIGN.md Appendix C.1): a canonical, reader-independent rendering of
+//! what gimli reports for a set of sections, by *meaning*.
+//!
+//! * `dump_dwarf`   — units (header + flat pre-order DIE forest + line table)
+//! * `dump_line_program` — one line program (dirs, files, rows)
+//! * `dump_frame`   — FDEs of a `.debug_frame` / `.eh_frame` section with their unwind rows
+//! * `dump_expression` — one expression (decoded operations)
+//! * `first_diff`   — readable first structural difference of two dumps
+//!
+//! Everything that is pure encoding is absent by construction: forms, section offsets,
+//! string pooling, abbreviation codes, opcode choice, CIE sharing, file-index numbering,
+//! `DW_AT_sibling`, the `*_base` / dwo bookkeeping attributes.  Rendering rules:
+//!
+//! * strings: bytes after resolving string / strp / strx* / line_strp;
+//! * addresses: value after resolving addrx*;
+//! * references: identity `(unit index, pre-order index)` of the target entry, or
+//!   `dangling(offset)` when the offset is not an entry;
+//! * range / location lists: the *resolved* ranges (`RngListIter` / `LocListIter`), so base
+//!   selection entries, tombstones and empty ranges are invisible, exactly as a consumer sees
+//!   them;
+//! * expressions: decoded operations; branch targets as operation indices (`len` = end),
+//!   entry operands as identities, `DW_OP_addrx` / `DW_OP_constx` by resolved value;
+//! * file indices (attributes and line rows): `(path bytes, directory bytes)`;
+//! * file and directory tables: sorted, de-duplicated *sets* (index numbering and duplicate
+//!   entries are encoding); for version <= 4 the implicit directory 0 (the unit's
+//!   `DW_AT_comp_dir`) is part of the directory set;
+//! * `end_sequence` rows: address only (the other registers of that row carry no meaning);
+//! * DIE order: children of the unit root whose tag is `DW_TAG_base_type` are listed first
+//!   (stable) — `gimli::write` moves them there so that typed expression operands can use
+//!   ULEB offsets, and the order of top-level siblings carries no meaning.  Identities are
+//!   pre-order indices in this normalised order.  (Option `base_types_first`.)
+//! * CFI: every FDE with its CIE's fields inlined (CIE sharing / order / unreferenced CIEs
+//!   are encoding) and the complete unwind table; adjacent rows with identical CFA, rules and
+//!   args size are merged (how a run of advance_loc instructions is split is encoding); an
+//!   absent FDE pointer encoding is DW_EH_PE_absptr.
+//!
+//! A dump step that fails records `E(variant name)` at that node instead of aborting.
+//! The DIE forest is rendered *flat* (pre-order list with depths), so neither building nor
+//! comparing a dump recurses per nesting level of the input.
+//!
+//! Generic over `R: gimli::Reader` (any offset type).
+
+use gimli::read::{
+    AttributeValue, BaseAddresses, CfaRule, CieOrFde, DebuggingInformationEntry, Operation, Reader, ReaderOffset, RegisterRule,
+    UnwindContext, UnwindOffset, UnwindSection,
+};
+use gimli::{constants, DebugInfoOffset, DieReference, UnitOffset, UnitSectionOffset};
+use serde_json::{json, Value};
+use std::collections::HashMap;
+
+// ---------------------------------------------------------------- the dump value
+
+#[derive(Clone, Debug, PartialEq)]
+pub enum D {
+    Nil,
+    B(bool),
+    U(u64),
+    I(i64),
+    W(u128),
+    Bytes(Vec<u8>),
+    S(String),
+    /// ordered list
+    L(Vec<D>),
+    /// record: ordered named fields
+    R(Vec<(String, D)>),
+    /// tagged value, e.g. `T("addr", U(0x1000))`
+    T(String, Box<D>),
+    /// an error recorded at this node (variant name only: payloads may be reader dependent)
+    E(String),
+}
+
+pub fn rec(fields: Vec<(&str, D)>) -> D {
+    D::R(fields.into_iter().map(|(k, v)| (k.to_string(), v)).collect())
+}
+pub fn tag(t: &str, d: D) -> D {
+    D::T(t.to_string(), Box::new(d))
+}
+pub fn s(x: &str) -> D {
+    D::S(x.to_string())
+}
+
+/// Name of a gimli error without its payload.
+pub fn err_name<E: std::fmt::Debug>(e: &E) -> String {
+    let t = format!("{:?}", e);
+    t.chars().take_while(|c| c.is_ascii_alphanumeric() || *c == '_').collect()
+}
+fn err<E: std::fmt::Debug>(e: &E) -> D {
+    D::E(err_name(e))
+}
+
+impl D {
+    pub fn get(&self, key: &str) -> Option<&D> {
+        match self {
+            D::R(f) => f.iter().find(|(k, _)| k == key).map(|(_, v)| v),
+            _ => None,
+        }
+    }
+    pub fn list(&self) -> &[D] {
+        match self {
+            D::L(v) => v,
+            _ => &[],
+        }
+    }
+    /// Does the dump contain an error node?
+    pub fn has_error(&self) -> bool {
+        let mut stack = vec![self];
+        while let Some(d) = stack.pop() {
+            match d {
+                D::E(_) => return true,
+                D::L(v) => stack.extend(v.iter()),
+                D::R(f) => stack.extend(f.iter().map(|(_, v)| v)),
+                D::T(_, b) => stack.push(b),
+                _ => {}
+            }
+        }
+        false
+    }
+    /// First error node (name), if any.
+    pub fn first_error(&self) -> Option<String> {
+        let mut stack = vec![self];
+        while let Some(d) = stack.pop() {
+            match d {
+                D::E(e) => return Some(e.clone()),
+                D::L(v) => stack.extend(v.iter().rev()),
+                D::R(f) => stack.extend(f.iter().rev().map(|(_, v)| v)),
+                D::T(_, b) => stack.push(b),
+                _ => {}
+            }
+        }
+        None
+    }
+    pub fn node_count(&self) -> usize {
+        let mut n = 0;
+        let mut stack = vec![self];
+        while let Some(d) = stack.pop() {
+            n += 1;
+            match d {
+                D::L(v) => stack.extend(v.iter()),
+                D::R(f) => stack.extend(f.iter().map(|(_, v)| v)),
+                D::T(_, b) => stack.push(b),
+                _ => {}
+            }
+        }
+        n
+    }
+    /// Compact one-line rendering (for diff messages).
+    pub fn brief(&self) -> String {
+        let mut out = String::new();
+        brief_into(self, &mut out, 0);
+        if out.len() > 400 {
+            let mut cut = 400;
+            while !out.is_char_boundary(cut) {
+                cut -= 1;
+            }
+            out.truncate(cut);
+            out.push_str("...");
+        }
+        out
+    }
+    /// JSON rendering (for replay files / samples); large dumps are cut.
+    pub fn to_json(&self) -> Value {
+        to_json_lim(self, &mut 4000, 0)
+    }
+}
+
+fn hexs(b: &[u8]) -> String {
+    let mut t = String::new();
+    for x in b.iter().take(64) {
+        t.push_str(&format!("{:02x}", x));
+    }
+    if b.len() > 64 {
+        t.push_str(&format!("..+{}", b.len() - 64));
+    }
+    t
+}
+
+fn brief_into(d: &D, out: &mut String, depth: usize) {
+    if out.len() > 500 {
+        return;
+    }
+    match d {
+        D::Nil => out.push_str("nil"),
+        D::B(b) => out.push_str(if *b { "true" } else { "false" }),
+        D::U(v) => out.push_str(&format!("{:#x}", v)),
+        D::I(v) => out.push_str(&format!("{}", v)),
+        D::W(v) => out.push_str(&format!("{:#x}", v)),
+        D::Bytes(b) => {
+            if !b.is_empty() && b.iter().all(|c| (0x20..0x7f).contains(c)) {
+                out.push_str(&format!("\"{}\"", String::from_utf8_lossy(b)));
+            } else {
+                out.push_str(&format!("x'{}'", hexs(b)));
+            }
+        }
+        D::S(t) => out.push_str(t),
+        D::E(t) => out.push_str(&format!("Error({})", t)),
+        D::T(t, b) => {
+            out.push_str(t);
+            out.push('(');
+            if depth < 12 {
+                brief_into(b, out, depth + 1);
+            } else {
+                out.push_str("..");
+            }
+            out.push(')');
+        }
+        D::L(v) => {
+            out.push('[');
+            for (i, x) in v.iter().enumerate() {
+                if i > 0 {
+                    out.push_str(", ");
+                }
+                if depth < 12 {
+                    brief_into(x, out, depth + 1);
+                } else {
+                    out.push_str("..");
+                }
+                if out.len() > 500 {
+                    break;
+                }
+            }
+            out.push(']');
+        }
+        D::R(f) => {
+            out.push('{');
+            for (i, (k, x)) in f.iter().enumerate() {
+                if i > 0 {
+                    out.push_str(", ");
+                }
+                out.push_str(k);
+                out.push(':');
+                if depth < 12 {
+                    brief_into(x, out, depth + 1);
+                } else {
+                    out.push_str("..");
+                }
+                if out.len() > 500 {
+                    break;
+                }
+            }
+            out.push('}');
+        }
+    }
+}
+
+fn to_json_lim(d: &D, budget: &mut i64, depth: usize) -> Value {
+    *budget -= 1;
+    if *budget < 0 || depth > 24 {
+        return json!("...");
+    }
+    match d {
+        D::Nil => Value::Null,
+        D::B(b) => json!(b),
+        D::U(v) => json!(v),
+        D::I(v) => json!(v),
+        D::W(v) => json!(format!("{:#x}", v)),
+        D::Bytes(b) => json!(format!("x'{}'", hexs(b))),
+        D::S(t) => json!(t),
+        D::E(t) => json!({ "error": t }),
+        D::T(t, b) => {
+            let mut m = serde_json::Map::new();
+            m.insert(t.clone(), to_json_lim(b, budget, depth + 1));
+            Value::Object(m)
+        }
+        D::L(v) => Value::Array(v.iter().map(|x| to_json_lim(x, budget, depth + 1)).collect()),
+        D::R(f) => {
+            let mut m = serde_json::Map::new();
+            for (k, x) in f {
+                m.insert(k.clone(), to_json_lim(x, budget, depth + 1));
+            }
+            Value::Object(m)
+        }
+    }
+}
+
+fn kind(d: &D) -> &'static str {
+    match d {
+        D::Nil => "nil",
+        D::B(_) => "bool",
+        D::U(_) => "unsigned",
+        D::I(_) => "signed",
+        D::W(_) => "u128",
+        D::Bytes(_) => "bytes",
+        D::S(_) => "symbol",
+        D::L(_) => "list",
+        D::R(_) => "record",
+        D::T(_, _) => "tagged",
+        D::E(_) => "error",
+    }
+}
+
+/// The first structural difference between two dumps as `path: left <> right`, or `None`
+/// when they are equal.  Walks with an explicit stack.
+pub fn first_diff(a: &D, b: &D) -> Option<String> {
+    let mut stack: Vec<(String, &D, &D)> = vec![(String::new(), a, b)];
+    while let Some((path, x, y)) = stack.pop() {
+        match (x, y) {
+            (D::L(u), D::L(v)) => {
+                let n = u.len().min(v.len());
+                // the first differing element decides; push in reverse so index 0 pops first
+                if u.len() != v.len() {
+                    // look for a differing common element first: it is the more useful report
+                    let mut found = false;
+                    for i in 0..n {
+                        if u[i] != v[i] {
+                            stack.push((format!("{}[{}]", path, i), &u[i], &v[i]));
+                            found = true;
+                            break;
+                        }
+                    }
+                    if !found {
+                        let extra = if u.len() > v.len() { &u[n] } else { &v[n] };
+                        return Some(format!(
+                            "{}: list length {} <> {} (first extra element on the {} side: {})",
+                            path,
+                            u.len(),
+                            v.len(),
+                            if u.len() > v.len() { "left" } else { "right" },
+                            extra.brief()
+                        ));
+                    }
+                } else {
+                    for i in 0..n {
+                        if u[i] != v[i] {
+                            stack.push((format!("{}[{}]", path, i), &u[i], &v[i]));
+                            break;
+                        }
+                    }
+                }
+            }
+            (D::R(f), D::R(g)) => {
+                let kf: Vec<&String> = f.iter().map(|(k, _)| k).collect();
+                let kg: Vec<&String> = g.iter().map(|(k, _)| k).collect();
+                if kf != kg {
+                    return Some(format!("{}: record fields {:?} <> {:?}", path, kf, kg));
+                }
+                for i in 0..f.len() {
+                    if f[i].1 != g[i].1 {
+                        stack.push((format!("{}.{}", path, f[i].0), &f[i].1, &g[i].1));
+                        break;
+                    }
+                }
+            }
+            (D::T(t, p), D::T(u, q)) if t == u => {
+                if p != q {
+                    stack.push((format!("{}.{}", path, t), p, q));
+                }
+            }
+            _ => {
+                if x != y {
+                    let what = if kind(x) != kind(y) { format!(" ({} <> {})", kind(x), kind(y)) } else { String::new() };
+                    return Some(format!("{}: {} <> {}{}", path, x.brief(), y.brief(), what));
+                }
+            }
+        }
+    }
+    None
+}
+
+// ---------------------------------------------------------------- options
+
+#[derive(Clone, Copy, Debug)]
+pub struct DumpOpts {
+    /// list `DW_TAG_base_type` children of the unit root first (see the module comment)
+    pub base_types_first: bool,
+    /// include the line table of each unit
+    pub line: bool,
+    /// bound on entries per unit / rows per table / units (a truncated dump records `E("DumpLimit")`)
+    pub limit: usize,
+}
+
+impl Default for DumpOpts {
+    fn default() -> Self {
+        DumpOpts { base_types_first: true, line: true, limit: 200_000 }
+    }
+}
+
+// ---------------------------------------------------------------- units
+
+struct UnitData<R: Reader> {
+    header: gimli::UnitHeader<R>,
+    unit: Result<gimli::Unit<R>, String>,
+    /// entries in section order
+    entries: Vec<DebuggingInformationEntry<R>>,
+    entries_err: Option<String>,
+    /// normalised pre-order: positions into `entries`
+    order: Vec<usize>,
+    /// unit offset of an entry -> pre-order index
+    idx: HashMap<u64, usize>,
+    /// section offset of the unit header and its total length
+    start: u64,
+    len: u64,
+    in_types: bool,
+}
+
+fn load_unit<R: Reader>(dwarf: &gimli::Dwarf<R>, header: gimli::UnitHeader<R>, in_types: bool, opts: &DumpOpts) -> UnitData<R> {
+    let start = header.offset().0.into_u64();
+    let len = header.length_including_self().into_u64();
+    let unit = dwarf.unit(header.clone()).map_err(|e| err_name(&e));
+    let mut entries = vec![];
+    let mut entries_err = None;
+    match dwarf.abbreviations(&header) {
+        Err(e) => entries_err = Some(err_name(&e)),
+        Ok(abbrevs) => match header.entries_raw(&abbrevs, None) {
+            Err(e) => entries_err = Some(err_name(&e)),
+            Ok(mut raw) => {
+                let mut e = DebuggingInformationEntry::null();
+                while !raw.is_empty() {
+                    if entries.len() >= opts.limit {
+                        entries_err = Some("DumpLimit".into());
+                        break;
+                    }
+                    match raw.read_entry(&mut e) {
+                        Ok(true) => entries.push(e.clone()),
+                        Ok(false) => {}
+                        Err(x) => {
+                            entries_err = Some(err_name(&x));
+                            break;
+                        }
+                    }
+                }
+            }
+        },
+    }
+    // normalised order
+    let mut order: Vec<usize> = Vec::with_capacity(entries.len());
+    if !entries.is_empty() {
+        order.push(0);
+        // blocks: maximal runs starting at an entry of depth <= 1
+        let mut blocks: Vec<(usize, usize)> = vec![];
+        let mut i = 1;
+        while i < entries.len() {
+            let mut j = i + 1;
+            while j < entries.len() && entries[j].depth > 1 {
+                j += 1;
+            }
+            blocks.push((i, j));
+            i = j;
+        }
+        if opts.base_types_first {
+            for &(a, b) in &blocks {
+                if entries[a].depth == 1 && entries[a].tag == constants::DW_TAG_base_type {
+                    order.extend(a..b);
+                }
+            }
+            for &(a, b) in &blocks {
+                if !(entries[a].depth == 1 && entries[a].tag == constants::DW_TAG_base_type) {
+                    order.extend(a..b);
+                }
+            }
+        } else {
+            for &(a, b) in &blocks {
+                order.extend(a..b);
+            }
+        }
+    }
+    let mut idx = HashMap::new();
+    for (pos, &k) in order.iter().enumerate() {
+        idx.insert(entries[k].offset.0.into_u64(), pos);
+    }
+    UnitData { header, unit, entries, entries_err, order, idx, start, len, in_types }
+}
+
+struct Ctx<'a, R: Reader> {
+    dwarf: &'a gimli::Dwarf<R>,
+    units: &'a [UnitData<R>],
+    /// index of the current unit in `units`
+    cur: usize,
+}
+
+fn id(u: usize, i: usize) -> D {
+    tag("id", D::L(vec![D::U(u as u64), D::U(i as u64)]))
+}
+
+impl<'a, R: Reader> Ctx<'a, R> {
+    fn unit(&self) -> Option<&'a gimli::Unit<R>> {
+        self.units.get(self.cur).and_then(|u| u.unit.as_ref().ok())
+    }
+    fn unit_ref(&self, off: UnitOffset<R::Offset>) -> D {
+        let o = off.0.into_u64();
+        match self.units.get(self.cur).and_then(|u| u.idx.get(&o)) {
+            Some(&i) => id(self.cur, i),
+            None => tag("dangling_unit_ref", D::U(o)),
+        }
+    }
+    fn info_ref(&self, off: DebugInfoOffset<R::Offset>) -> D {
+        let o = off.0.into_u64();
+        for (k, u) in self.units.iter().enumerate() {
+            if !u.in_types && o >= u.start && o < u.start.saturating_add(u.len) {
+                if let Some(&i) = u.idx.get(&(o - u.start)) {
+                    return id(k, i);
+                }
+            }
+        }
+        tag("dangling_info_ref", D::U(o))
+    }
+    fn string(&self, v: AttributeValue<R>) -> D {
+        let Some(unit) = self.unit() else { return D::E("NoUnit".into()) };
+        match self.dwarf.attr_string(unit, v) {
+            Ok(r) => match r.to_slice() {
+                Ok(b) => D::Bytes(b.to_vec()),
+                Err(e) => err(&e),
+            },
+            Err(e) => err(&e),
+        }
+    }
+    fn address(&self, index: gimli::DebugAddrIndex<R::Offset>) -> D {
+        let Some(unit) = self.unit() else { return D::E("NoUnit".into()) };
+        match self.dwarf.address(unit, index) {
+            Ok(a) => D::U(a),
+            Err(e) => err(&e),
+        }
+    }
+    fn ranges(&self, off: gimli::RangeListsOffset<R::Offset>) -> D {
+        let Some(unit) = self.unit() else { return D::E("NoUnit".into()) };
+        let mut out = vec![];
+        match self.dwarf.ranges(unit, off) {
+            Err(e) => return tag("ranges", err(&e)),
+            Ok(mut it) => loop {
+                if out.len() > 100_000 {
+                    out.push(D::E("DumpLimit".into()));
+                    break;
+                }
+                match it.next() {
+                    Ok(Some(r)) => out.push(D::L(vec![D::U(r.begin), D::U(r.end)])),
+                    Ok(None) => break,
+                    Err(e) => {
+                        out.push(err(&e));
+                        break;
+                    }
+                }
+            },
+        }
+        tag("ranges", D::L(out))
+    }
+    fn locations(&self, off: gimli::LocationListsOffset<R::Offset>) -> D {
+        let Some(unit) = self.unit() else { return D::E("NoUnit".into()) };
+        let mut out = vec![];
+        match self.dwarf.locations(unit, off) {
+            Err(e) => return tag("locs", err(&e)),
+            Ok(mut it) => loop {
+                if out.len() > 100_000 {
+                    out.push(D::E("DumpLimit".into()));
+                    break;
+                }
+                match it.next() {
+                    Ok(Some(l)) => out.push(D::L(vec![D::U(l.range.begin), D::U(l.range.end), self.expr(&l.data, 0)])),
+                    Ok(None) => break,
+                    Err(e) => {
+                        out.push(err(&e));
+                        break;
+                    }
+                }
+            },
+        }
+        tag("locs", D::L(out))
+    }
+
+    fn expr(&self, e: &gimli::Expression<R>, depth: usize) -> D {
+        let encoding = match self.units.get(self.cur) {
+            Some(u) => u.header.encoding(),
+            None => return D::E("NoUnit".into()),
+        };
+        expr_ops(e, encoding, Some(self), depth)
+    }
+
+    fn file(&self, index: u64) -> D {
+        let Some(unit) = self.unit() else { return D::E("NoUnit".into()) };
+        let Some(program) = &unit.line_program else { return tag("file", D::E("NoLineProgram".into())) };
+        let header = program.header();
+        if index == 0 && header.version() <= 4 {
+            return tag("file", D::Nil);
+        }
+        match header.file(index) {
+            None => tag("file", D::E("BadFileIndex".into())),
+            Some(f) => tag("file", file_id(self.dwarf, Some(unit), header, f)),
+        }
+    }
+}
+
+fn line_string<R: Reader>(dwarf: &gimli::Dwarf<R>, unit: Option<&gimli::Unit<R>>, v: AttributeValue<R>) -> D {
+    let r = match unit {
+        Some(u) => dwarf.attr_string(u, v),
+        None => dwarf.attr_line_string(v),
+    };
+    match r {
+        Ok(r) => match r.to_slice() {
+            Ok(b) => D::Bytes(b.to_vec()),
+            Err(e) => err(&e),
+        },
+        Err(e) => err(&e),
+    }
+}
+
+/// `(path, directory)` of a file entry.
+fn file_id<R: Reader>(
+    dwarf: &gimli::Dwarf<R>,
+    unit: Option<&gimli::Unit<R>>,
+    header: &gimli::LineProgramHeader<R>,
+    f: &gimli::FileEntry<R>,
+) -> D {
+    let path = line_string(dwarf, unit, f.path_name());
+    let dir = match f.directory(header) {
+        Some(d) => line_string(dwarf, unit, d),
+        None => {
+            if f.directory_index() == 0 {
+                D::Nil
+            } else {
+                D::E("BadDirectoryIndex".into())
+            }
+        }
+    };
+    D::L(vec![path, dir])
+}
+
+fn reg(r: gimli::Register) -> D {
+    D::U(r.0 as u64)
+}
+
+/// Decoded operations of an expression.  `ctx` resolves entry references / address indices;
+/// without it they are rendered raw.
+fn expr_ops<R: Reader>(e: &gimli::Expression<R>, encoding: gimli::Encoding, ctx: Option<&Ctx<'_, R>>, depth: usize) -> D {
+    if depth > 32 {
+        return tag("expr", D::E("DumpDepth".into()));
+    }
+    // pass 1: operation boundaries
+    let mut starts: Vec<u64> = vec![];
+    let mut ends: Vec<u64> = vec![];
+    let mut ops: Vec<Operation<R>> = vec![];
+    let mut it = e.clone().operations(encoding);
+    let mut failure = None;
+    let mut off = 0u64;
+    loop {
+        if ops.len() > 200_000 {
+            failure = Some("DumpLimit".to_string());
+            break;
+        }
+        match it.next() {
+            Ok(Some(op)) => {
+                starts.push(off);
+                off = it.offset_from(e).into_u64();
+                ends.push(off);
+                ops.push(op);
+            }
+            Ok(None) => break,
+            Err(x) => {
+                failure = Some(err_name(&x));
+                break;
+            }
+        }
+    }
+    let total = e.0.len().into_u64();
+    let target = |i: usize, t: i16| -> D {
+        let to = (ends[i] as i128) + (t as i128);
+        if to == total as i128 && failure.is_none() {
+            return D::U(ops.len() as u64);
+        }
+        if to < 0 {
+            return D::E("BadBranchTarget".into());
+        }
+        match starts.binary_search(&(to as u64)) {
+            Ok(k) => D::U(k as u64),
+            Err(_) => D::E("BadBranchTarget".into()),
+        }
+    };
+    let uref = |o: UnitOffset<R::Offset>| -> D {
+        match ctx {
+            Some(c) => c.unit_ref(o),
+            None => tag("unit_offset", D::U(o.0.into_u64())),
+        }
+    };
+    let base = |o: UnitOffset<R::Offset>| -> D {
+        if o.0.into_u64() == 0 {
+            D::Nil
+        } else {
+            uref(o)
+        }
+    };
+    let iref = |o: DebugInfoOffset<R::Offset>| -> D {
+        match ctx {
+            Some(c) => c.info_ref(o),
+            None => tag("info_offset", D::U(o.0.into_u64())),
+        }
+    };
+    let bytes = |r: &R| -> D {
+        match r.to_slice() {
+            Ok(b) => D::Bytes(b.to_vec()),
+            Err(x) => err(&x),
+        }
+    };
+    let mut out = Vec::with_capacity(ops.len() + 1);
+    for (i, op) in ops.iter().enumerate() {
+        let d = match op {
+            Operation::Deref { base_type, size, space } => {
+                tag("deref", D::L(vec![base(*base_type), D::U(*size as u64), D::B(*space)]))
+            }
+            Operation::Drop => s("drop"),
+            Operation::Pick { index } => tag("pick", D::U(*index as u64)),
+            Operation::Swap => s("swap"),
+            Operation::Rot => s("rot"),
+            Operation::Abs => s("abs"),
+            Operation::And => s("and"),
+            Operation::Div => s("div"),
+            Operation::Minus => s("minus"),
+            Operation::Mod => s("mod"),
+            Operation::Mul => s("mul"),
+            Operation::Neg => s("neg"),
+            Operation::Not => s("not"),
+            Operation::Or => s("or"),
+            Operation::Plus => s("plus"),
+            Operation::PlusConstant { value } => tag("plus_uconst", D::U(*value)),
+            Operation::Shl => s("shl"),
+            Operation::Shr => s("shr"),
+            Operation::Shra => s("shra"),
+            Operation::Xor => s("xor"),
+            Operation::Bra { target: t } => tag("bra", target(i, *t)),
+            Operation::Eq => s("eq"),
+            Operation::Ge => s("ge"),
+            Operation::Gt => s("gt"),
+            Operation::Le => s("le"),
+            Operation::Lt => s("lt"),
+            Operation::Ne => s("ne"),
+            Operation::Skip { target: t } => tag("skip", target(i, *t)),
+            Operation::UnsignedConstant { value } => tag("uconst", D::U(*value)),
+            Operation::SignedConstant { value } => tag("sconst", D::I(*value)),
+            Operation::Register { register } => tag("reg", reg(*register)),
+            Operation::RegisterOffset { register, offset, base_type } => {
+                tag("breg", D::L(vec![reg(*register), D::I(*offset), base(*base_type)]))
+            }
+            Operation::FrameOffset { offset } => tag("fbreg", D::I(*offset)),
+            Operation::Nop => s("nop"),
+            Operation::PushObjectAddress => s("push_object_address"),
+            Operation::Call { offset } => match offset {
+                DieReference::UnitRef(o) => tag("call", uref(*o)),
+                DieReference::DebugInfoRef(o) => tag("call", iref(*o)),
+            },
+            Operation::VariableValue { offset } => tag("variable_value", iref(*offset)),
+            Operation::TLS => s("tls"),
+            Operation::CallFrameCFA => s("call_frame_cfa"),
+            Operation::Piece { size_in_bits, bit_offset } => tag(
+                "piece",
+                D::L(vec![
+                    D::U(*size_in_bits),
+                    match bit_offset {
+                        Some(b) => D::U(*b),
+                        None => D::Nil,
+                    },
+                ]),
+            ),
+            Operation::ImplicitValue { data } => tag("implicit_value", bytes(data)),
+            Operation::StackValue => s("stack_value"),
+            Operation::ImplicitPointer { value, byte_offset } => tag("implicit_pointer", D::L(vec![iref(*value), D::I(*byte_offset)])),
+            Operation::EntryValue { expression } => {
+                tag("entry_value", expr_ops(&gimli::Expression(expression.clone()), encoding, ctx, depth + 1))
+            }
+            Operation::ParameterRef { offset } => tag("parameter_ref", uref(*offset)),
+            Operation::Address { address } => tag("addr", D::U(*address)),
+            Operation::AddressIndex { index } => match ctx {
+                Some(c) => tag("addr", c.address(*index)),
+                None => tag("addrx", D::U(index.0.into_u64())),
+            },
+            Operation::ConstantIndex { index } => match ctx {
+                Some(c) => tag("uconst", c.address(*index)),
+                None => tag("constx", D::U(index.0.into_u64())),
+            },
+            Operation::TypedLiteral { base_type, value } => tag("const_type", D::L(vec![uref(*base_type), bytes(value)])),
+            Operation::Convert { base_type } => tag("convert", base(*base_type)),
+            Operation::Reinterpret { base_type } => tag("reinterpret", base(*base_type)),
+            Operation::Uninitialized => s("uninit"),
+            Operation::WasmLocal { index } => tag("wasm_local", D::U(*index as u64)),
+            Operation::WasmGlobal { index } => tag("wasm_global", D::U(*index as u64)),
+            Operation::WasmStack { index } => tag("wasm_stack", D::U(*index as u64)),
+        };
+        out.push(d);
+    }
+    if let Some(f) = failure {
+        out.push(D::E(f));
+    }
+    tag("expr", D::L(out))
+}
+
+/// Dump a stand-alone expression (no unit context: references and address indices raw).
+pub fn dump_expression<R: Reader>(e: &gimli::Expression<R>, encoding: gimli::Encoding) -> D {
+    expr_ops(e, encoding, None, 0)
+}
+
+fn omitted(name: constants::DwAt) -> bool {
+    matches!(
+        name,
+        constants::DW_AT_sibling
+            | constants::DW_AT_str_offsets_base
+            | constants::DW_AT_addr_base
+            | constants::DW_AT_rnglists_base
+            | constants::DW_AT_loclists_base
+            | constants::DW_AT_dwo_name
+            | constants::DW_AT_GNU_addr_base
+            | constants::DW_AT_GNU_ranges_base
+            | constants::DW_AT_GNU_dwo_name
+            | constants::DW_AT_GNU_dwo_id
+    )
+}
+
+fn meaning<R: Reader>(c: &Ctx<'_, R>, attr: &gimli::Attribute<R>) -> D {
+    let v = attr.value();
+    match v {
+        AttributeValue::Addr(a) => tag("addr", D::U(a)),
+        AttributeValue::DebugAddrIndex(i) => tag("addr", c.address(i)),
+        AttributeValue::Block(r) => tag(
+            "block",
+            match r.to_slice() {
+                Ok(b) => D::Bytes(b.to_vec()),
+                Err(e) => err(&e),
+            },
+        ),
+        AttributeValue::Data1(x) => tag("data1", D::U(x as u64)),
+        AttributeValue::Data2(x) => tag("data2", D::U(x as u64)),
+        AttributeValue::Data4(x) => tag("data4", D::U(x as u64)),
+        AttributeValue::Data8(x) => tag("data8", D::U(x)),
+        AttributeValue::Data16(x) => tag("data16", D::W(x)),
+        AttributeValue::Sdata(x) => tag("sdata", D::I(x)),
+        AttributeValue::Udata(x) => tag("udata", D::U(x)),
+        AttributeValue::Exprloc(e) => c.expr(&e, 0),
+        AttributeValue::Flag(b) => tag("flag", D::B(b)),
+        AttributeValue::SecOffset(o) => tag("sec_offset", D::U(o.into_u64())),
+        AttributeValue::DebugAddrBase(o) => tag("addr_base", D::U(o.0.into_u64())),
+        AttributeValue::DebugLocListsBase(o) => tag("loclists_base", D::U(o.0.into_u64())),
+        AttributeValue::DebugRngListsBase(o) => tag("rnglists_base", D::U(o.0.into_u64())),
+        AttributeValue::DebugStrOffsetsBase(o) => tag("str_offsets_base", D::U(o.0.into_u64())),
+        AttributeValue::UnitRef(o) => tag("ref", c.unit_ref(o)),
+        AttributeValue::DebugInfoRef(o) => tag("ref", c.info_ref(o)),
+        AttributeValue::DebugInfoRefSup(o) => tag("ref_sup", D::U(o.0.into_u64())),
+        AttributeValue::DebugLineRef(o) => {
+            let own = c.unit().and_then(|u| u.line_program.as_ref()).map(|p| p.header().offset().0.into_u64());
+            if own == Some(o.0.into_u64()) {
+                s("line_program")
+            } else {
+                tag("other_line_program", D::U(o.0.into_u64()))
+            }
+        }
+        AttributeValue::LocationListsRef(o) => c.locations(o),
+        AttributeValue::DebugLocListsIndex(i) => match c.unit() {
+            None => D::E("NoUnit".into()),
+            Some(u) => match c.dwarf.locations_offset(u, i) {
+                Ok(o) => c.locations(o),
+                Err(e) => tag("locs", err(&e)),
+            },
+        },
+        AttributeValue::DebugMacinfoRef(o) => tag("macinfo", D::U(o.0.into_u64())),
+        AttributeValue::DebugMacroRef(o) => tag("macro", D::U(o.0.into_u64())),
+        AttributeValue::RangeListsRef(o) => match c.unit() {
+            None => D::E("NoUnit".into()),
+            Some(u) => c.ranges(c.dwarf.ranges_offset_from_raw(u, o)),
+        },
+        AttributeValue::DebugRngListsIndex(i) => match c.unit() {
+            None => D::E("NoUnit".into()),
+            Some(u) => match c.dwarf.ranges_offset(u, i) {
+                Ok(o) => c.ranges(o),
+                Err(e) => tag("ranges", err(&e)),
+            },
+        },
+        AttributeValue::DebugTypesRef(sig) => tag("sig", D::U(sig.0)),
+        AttributeValue::DebugStrRefSup(o) => tag("str_sup", D::U(o.0.into_u64())),
+        v @ (AttributeValue::DebugStrRef(_)
+        | AttributeValue::DebugStrOffsetsIndex(_)
+        | AttributeValue::DebugLineStrRef(_)
+        | AttributeValue::String(_)) => tag("str", c.string(v)),
+        AttributeValue::Encoding(x) => tag("ate", D::U(x.0 as u64)),
+        AttributeValue::DecimalSign(x) => tag("ds", D::U(x.0 as u64)),
+        AttributeValue::Endianity(x) => tag("end", D::U(x.0 as u64)),
+        AttributeValue::Accessibility(x) => tag("access", D::U(x.0 as u64)),
+        AttributeValue::Visibility(x) => tag("vis", D::U(x.0 as u64)),
+        AttributeValue::Virtuality(x) => tag("virtuality", D::U(x.0 as u64)),
+        AttributeValue::Language(x) => tag("lang", D::U(x.0 as u64)),
+        AttributeValue::AddressClass(x) => tag("addr_class", D::U(x.0)),
+        AttributeValue::IdentifierCase(x) => tag("id_case", D::U(x.0 as u64)),
+        AttributeValue::CallingConvention(x) => tag("cc", D::U(x.0 as u64)),
+        AttributeValue::Inline(x) => tag("inl", D::U(x.0 as u64)),
+        AttributeValue::Ordering(x) => tag("ord", D::U(x.0 as u64)),
+        AttributeValue::FileIndex(i) => c.file(i),
+        AttributeValue::DwoId(x) => tag("dwo_id", D::U(x.0)),
+    }
+}
+
+fn tag_name(t: constants::DwTag) -> D {
+    match t.static_string() {
+        Some(n) => s(n),
+        None => tag("DW_TAG", D::U(t.0 as u64)),
+    }
+}
+fn at_name(t: constants::DwAt) -> String {
+    match t.static_string() {
+        Some(n) => n.to_string(),
+        None => format!("DW_AT_{:#x}", t.0),
+    }
+}
+
+fn unit_header<R: Reader>(c: &Ctx<'_, R>, u: &UnitData<R>) -> D {
+    let h = &u.header;
+    let mut f = vec![
+        ("version", D::U(h.version() as u64)),
+        ("format", D::U(if h.format() == gimli::Format::Dwarf64 { 64 } else { 32 })),
+        ("address_size", D::U(h.address_size() as u64)),
+    ];
+    match h.type_() {
+        gimli::UnitType::Compilation => f.push(("type", s("compile"))),
+        gimli::UnitType::Partial => f.push(("type", s("partial"))),
+        gimli::UnitType::Skeleton(x) => {
+            f.push(("type", s("skeleton")));
+            f.push(("dwo_id", D::U(x.0)));
+        }
+        gimli::UnitType::SplitCompilation(x) => {
+            f.push(("type", s("split_compile")));
+            f.push(("dwo_id", D::U(x.0)));
+        }
+        gimli::UnitType::Type { type_signature, type_offset } => {
+            f.push(("type", s("type")));
+            f.push(("signature", D::U(type_signature.0)));
+            f.push(("type_ref", c.unit_ref(type_offset)));
+        }
+        gimli::UnitType::SplitType { type_signature, type_offset } => {
+            f.push(("type", s("split_type")));
+            f.push(("signature", D::U(type_signature.0)));
+            f.push(("type_ref", c.unit_ref(type_offset)));
+        }
+    }
+    rec(f)
+}
+
+/// Dump everything reachable from `.debug_info` (and `.debug_types`) of `dwarf`.
+pub fn dump_dwarf<R: Reader>(dwarf: &gimli::Dwarf<R>) -> D {
+    dump_dwarf_with(dwarf, &DumpOpts::default())
+}
+
+pub fn dump_dwarf_with<R: Reader>(dwarf: &gimli::Dwarf<R>, opts: &DumpOpts) -> D {
+    let mut units: Vec<UnitData<R>> = vec![];
+    let mut section_err: Option<String> = None;
+    let mut it = dwarf.units();
+    loop {
+        if units.len() >= opts.limit {
+            section_err = Some("DumpLimit".into());
+            break;
+        }
+        match it.next() {
+            Ok(Some(h)) => units.push(load_unit(dwarf, h, false, opts)),
+            Ok(None) => break,
+            Err(e) => {
+                section_err = Some(err_name(&e));
+                break;
+            }
+        }
+    }
+    let mut types_err: Option<String> = None;
+    let mut it = dwarf.type_units();
+    loop {
+        if units.len() >= opts.limit {
+            types_err = Some("DumpLimit".into());
+            break;
+        }
+        match it.next() {
+            Ok(Some(h)) => units.push(load_unit(dwarf, h, true, opts)),
+            Ok(None) => break,
+            Err(e) => {
+                types_err = Some(err_name(&e));
+                break;
+            }
+        }
+    }
+    let mut out_units = vec![];
+    for (k, u) in units.iter().enumerate() {
+        let c = Ctx { dwarf, units: &units, cur: k };
+        let mut f: Vec<(&str, D)> = vec![];
+        if u.in_types {
+            f.push(("section", s("debug_types")));
+        }
+        f.push(("header", unit_header(&c, u)));
+        if let Err(e) = &u.unit {
+            f.push(("unit_error", D::E(e.clone())));
+        }
+        let mut forest = Vec::with_capacity(u.order.len());
+        for (pos, &raw) in u.order.iter().enumerate() {
+            let e = &u.entries[raw];
+            let mut attrs = vec![];
+            for a in e.attrs() {
+                if omitted(a.name()) {
+                    continue;
+                }
+                attrs.push(D::T(at_name(a.name()), Box::new(meaning(&c, a))));
+            }
+            forest.push(rec(vec![
+                ("id", D::L(vec![D::U(k as u64), D::U(pos as u64)])),
+                ("depth", D::I(e.depth as i64)),
+                ("tag", tag_name(e.tag)),
+                ("attrs", D::L(attrs)),
+            ]));
+        }
+        if let Some(e) = &u.entries_err {
+            forest.push(D::E(e.clone()));
+        }
+        f.push(("forest", D::L(forest)));
+        if opts.line {
+            if let Ok(unit) = &u.unit {
+                if let Some(p) = &unit.line_program {
+                    f.push(("line", dump_line_program_with(dwarf, Some(unit), p.clone(), opts)));
+                }
+            }
+        }
+        out_units.push(rec(f));
+    }
+    let mut top = vec![("units", D::L(out_units))];
+    if let Some(e) = section_err {
+        top.push(("debug_info_error", D::E(e)));
+    }
+    if let Some(e) = types_err {
+        top.push(("debug_types_error", D::E(e)));
+    }
+    rec(top)
+}
+
+// ---------------------------------------------------------------- line programs
+
+/// Dump one line program: `{dirs, files, rows}`.  `unit` is used to resolve indexed string
+/// forms of file / directory names (`None`: only inline / strp / line_strp forms resolve).
+pub fn dump_line_program<R: Reader>(dwarf: &gimli::Dwarf<R>, unit: Option<&gimli::Unit<R>>, program: gimli::IncompleteLineProgram<R>) -> D {
+    dump_line_program_with(dwarf, unit, program, &DumpOpts::default())
+}
+
+pub fn dump_line_program_with<R: Reader>(
+    dwarf: &gimli::Dwarf<R>,
+    unit: Option<&gimli::Unit<R>>,
+    program: gimli::IncompleteLineProgram<R>,
+    opts: &DumpOpts,
+) -> D {
+    let mut rows_out = vec![];
+    let mut rows = program.rows();
+    let mut seq = 0u64;
+    loop {
+        if rows_out.len() >= opts.limit {
+            rows_out.push(D::E("DumpLimit".into()));
+            break;
+        }
+        match rows.next_row() {
+            Ok(None) => break,
+            Err(e) => {
+                rows_out.push(err(&e));
+                break;
+            }
+            Ok(Some((header, row))) => {
+                if row.end_sequence() {
+                    rows_out.push(rec(vec![("seq", D::U(seq)), ("addr", D::U(row.address())), ("end", D::B(true))]));
+                    seq += 1;
+                } else {
+                    let file = match row.file(header) {
+                        Some(f) => {
+                            if row.file_index() == 0 && header.version() <= 4 {
+                                D::E("FileIndexZero".into())
+                            } else {
+                                file_id(dwarf, unit, header, f)
+                            }
+                        }
+                        None => D::E("BadFileIndex".into()),
+                    };
+                    rows_out.push(rec(vec![
+                        ("seq", D::U(seq)),
+                        ("addr", D::U(row.address())),
+                        ("op_index", D::U(row.op_index())),
+                        ("file", file),
+                        ("line", D::U(row.line().map(|l| l.get()).unwrap_or(0))),
+                        (
+                            "col",
+                            D::U(match row.column() {
+                                gimli::ColumnType::LeftEdge => 0,
+                                gimli::ColumnType::Column(c) => c.get(),
+                            }),
+                        ),
+                        ("stmt", D::B(row.is_stmt())),
+                        ("bb", D::B(row.basic_block())),
+                        ("pe", D::B(row.prologue_end())),
+                        ("eb", D::B(row.epilogue_begin())),
+                        ("isa", D::U(row.isa())),
+                        ("disc", D::U(row.discriminator())),
+                    ]));
+                }
+            }
+        }
+    }
+    // tables from the final header (DW_LNE_define_file entries included)
+    let header = rows.header();
+    let mut dirs: Vec<D> = vec![];
+    if header.version() <= 4 {
+        if let Some(d) = header.directory(0) {
+            dirs.push(line_string(dwarf, unit, d));
+        }
+    }
+    for d in header.include_directories() {
+        dirs.push(line_string(dwarf, unit, d.clone()));
+    }
+    let mut files: Vec<D> = vec![];
+    for f in header.file_names() {
+        let idd = file_id(dwarf, unit, header, f);
+        let (path, dir) = match idd {
+            D::L(mut v) if v.len() == 2 => {
+                let d = v.pop().unwrap();
+                let p = v.pop().unwrap();
+                (p, d)
+            }
+            other => (other, D::Nil),
+        };
+        files.push(rec(vec![
+            ("path", path),
+            ("dir", dir),
+            ("time", D::U(f.timestamp())),
+            ("size", D::U(f.size())),
+            ("md5", D::Bytes(f.md5().to_vec())),
+            (
+                "source",
+                match f.source() {
+                    Some(sv) => line_string(dwarf, unit, sv),
+                    None => D::Nil,
+                },
+            ),
+        ]));
+    }
+    sort_dedup(&mut dirs);
+    sort_dedup(&mut files);
+    rec(vec![("dirs", D::L(dirs)), ("files", D::L(files)), ("rows", D::L(rows_out))])
+}
+
+fn sort_dedup(v: &mut Vec<D>) {
+    let mut keyed: Vec<(String, D)> = v.drain(..).map(|d| (format!("{:?}", d), d)).collect();
+    keyed.sort_by(|a, b| a.0.cmp(&b.0));
+    keyed.dedup_by(|a, b| a.0 == b.0);
+    v.extend(keyed.into_iter().map(|(_, d)| d));
+}
+
+// ---------------------------------------------------------------- frames
+
+fn pointer(p: gimli::Pointer) -> D {
+    match p {
+        gimli::Pointer::Direct(x) => tag("direct", D::U(x)),
+        gimli::Pointer::Indirect(x) => tag("indirect", D::U(x)),
+    }
+}
+
+fn cie_fields<R: Reader>(cie: &gimli::CommonInformationEntry<R>) -> D {
+    rec(vec![
+        ("version", D::U(cie.version() as u64)),
+        ("format", D::U(if cie.encoding().format == gimli::Format::Dwarf64 { 64 } else { 32 })),
+        ("address_size", D::U(cie.address_size() as u64)),
+        ("code_align", D::U(cie.code_alignment_factor())),
+        ("data_align", D::I(cie.data_alignment_factor())),
+        ("ra", reg(cie.return_address_register())),
+        (
+            "personality",
+            match cie.personality_with_encoding() {
+                Some((enc, p)) => D::L(vec![D::U(enc.0 as u64), pointer(p)]),
+                None => D::Nil,
+            },
+        ),
+        (
+            "lsda_enc",
+            match cie.lsda_encoding() {
+                Some(e) => D::U(e.0 as u64),
+                None => D::Nil,
+            },
+        ),
+        // absent 'R' augmentation == DW_EH_PE_absptr
+        ("fde_enc", D::U(cie.fde_address_encoding().map(|e| e.0 as u64).unwrap_or(0))),
+        ("signal", D::B(cie.is_signal_trampoline())),
+    ])
+}
+
+/// Dump every FDE of a frame section (CIE fields inlined) with its unwind rows.
+/// `bases` must be the same for the dumps that are compared.
+pub fn dump_frame<R, S>(section: &S, bases: &BaseAddresses) -> D
+where
+    R: Reader,
+    S: UnwindSection<R>,
+    S::Offset: UnwindOffset<R::Offset>,
+{
+    dump_frame_with(section, bases, &DumpOpts::default())
+}
+
+pub fn dump_frame_with<R, S>(section: &S, bases: &BaseAddresses, opts: &DumpOpts) -> D
+where
+    R: Reader,
+    S: UnwindSection<R>,
+    S::Offset: UnwindOffset<R::Offset>,
+{
+    let mut fdes = vec![];
+    let mut entries = section.entries(bases);
+    let mut ctx: Box<UnwindContext<R::Offset>> = Box::new(UnwindContext::new());
+    let mut n = 0usize;
+    loop {
+        n += 1;
+        if n > opts.limit {
+            fdes.push(D::E("DumpLimit".into()));
+            break;
+        }
+        let entry = match entries.next() {
+            Ok(Some(e)) => e,
+            Ok(None) => break,
+            Err(e) => {
+                fdes.push(err(&e));
+                break;
+            }
+        };
+        let partial = match entry {
+            CieOrFde::Cie(_) => continue,
+            CieOrFde::Fde(p) => p,
+        };
+        let fde = match partial.parse(S::cie_from_offset) {
+            Ok(f) => f,
+            Err(e) => {
+                fdes.push(tag("fde", err(&e)));
+                continue;
+            }
+        };
+        let encoding = fde.cie().encoding();
+        let uexpr = |x: &gimli::UnwindExpression<R::Offset>| -> D {
+            match x.get(section) {
+                Ok(e) => expr_ops(&e, encoding, None, 0),
+                Err(e) => err(&e),
+            }
+        };
+        let mut rows = vec![];
+        match fde.rows(section, bases, &mut ctx) {
+            Err(e) => rows.push(err(&e)),
+            Ok(mut table) => loop {
+                if rows.len() >= opts.limit {
+                    rows.push(D::E("DumpLimit".into()));
+                    break;
+                }
+                match table.next_row() {
+                    Ok(None) => break,
+                    Err(e) => {
+                        rows.push(err(&e));
+                        break;
+                    }
+                    Ok(Some(row)) => {
+                        let cfa = match row.cfa() {
+                            CfaRule::RegisterAndOffset { register, offset } => tag("reg_offset", D::L(vec![reg(*register), D::I(*offset)])),
+                            CfaRule::Expression(x) => uexpr(x),
+                        };
+                        let mut rules: Vec<(u16, D)> = vec![];
+                        for (r, rule) in row.registers() {
+                            let d = match rule {
+                                RegisterRule::Undefined => s("undefined"),
+                                RegisterRule::SameValue => s("same_value"),
+                                RegisterRule::Offset(o) => tag("offset", D::I(*o)),
+                                RegisterRule::ValOffset(o) => tag("val_offset", D::I(*o)),
+                                RegisterRule::Register(q) => tag("register", reg(*q)),
+                                RegisterRule::Expression(x) => tag("expression", uexpr(x)),
+                                RegisterRule::ValExpression(x) => tag("val_expression", uexpr(x)),
+                                RegisterRule::Architectural => s("architectural"),
+                                RegisterRule::Constant(v) => tag("constant", D::U(*v)),
+                            };
+                            rules.push((r.0, d));
+                        }
+                        rules.sort_by_key(|x| x.0);
+                        let rules = D::L(rules.into_iter().map(|(r, d)| D::L(vec![D::U(r as u64), d])).collect());
+                        let args = D::U(row.saved_args_size());
+                        // adjacent rows with identical contents are one row (how a run of
+                        // advance_loc instructions is split is encoding)
+                        let mut merged = false;
+                        if let Some(D::R(prev)) = rows.last_mut() {
+                            if prev.len() == 5
+                                && prev[1].1 == D::U(row.start_address())
+                                && prev[2].1 == cfa
+                                && prev[3].1 == rules
+                                && prev[4].1 == args
+                                && row.end_address() >= row.start_address()
+                            {
+                                prev[1].1 = D::U(row.end_address());
+                                merged = true;
+                            }
+                        }
+                        if !merged {
+                            rows.push(rec(vec![
+                                ("start", D::U(row.start_address())),
+                                ("end", D::U(row.end_address())),
+                                ("cfa", cfa),
+                                ("rules", rules),
+                                ("args_size", args),
+                            ]));
+                        }
+                    }
+                }
+            },
+        }
+        fdes.push(rec(vec![
+            ("cie", cie_fields(fde.cie())),
+            ("start", D::U(fde.initial_address())),
+            ("len", D::U(fde.len())),
+            (
+                "lsda",
+                match fde.lsda() {
+                    Some(p) => pointer(p),
+                    None => D::Nil,
+                },
+            ),
+            ("rows", D::L(rows)),
+        ]));
+    }
+    rec(vec![("fdes", D::L(fdes))])
+}
